@@ -1027,7 +1027,8 @@ def streams_for(kinds, tier, rng, tag):
         for _ in range(1000 if big else (260 if kind == "fin" else 90)):
             path = rng.choice(paths)
             c1 = gen_ctor(kind, rng, path=path)
-            c2 = gen_ctor(kind, rng, path=path)
+            # every third pair: the very same arguments (identical packed octets on the decode paths)
+            c2 = [list(x) for x in c1] if rng.random() < 0.33 else gen_ctor(kind, rng, path=path)
             cases.append((OPS[kind], c1 + gen_ops(kind, rng, c1[1][1], rng.randrange(0, 6)) + [SEP]
                           + c2 + gen_ops(kind, rng, c2[1][1], rng.randrange(1, 6))))
     yield "histories_two_objects_" + tag, "exact", cases
